@@ -13,6 +13,8 @@
    whose operands refer to existing elements -- is what C01 establishes for the real ensemble; the algorithms'
    own index/division sites (alg/dict/dict.go, alg/contfrac, alg/heuristic: sum[k] of an empty sum, ns[k-2],
    division by a zero delta ...) are discharged there, behind the `n >= 1` check that `search` performs.
+   C15_cli_no_panic_ensemble instantiates the argument with the modelled ensemble (model/CliEns.v, on C01's
+   model/Ensemble.v) and has no hypothesis about the algorithms left, only C01's size bound on the target.
 
    PARTIAL with respect to the full property text (checks/C15.json): Gallina functions terminate by
    construction, and the fuel lemmas show that the MODEL never runs out, but "the tool terminates on its own"
@@ -25,7 +27,7 @@ From Coq Require Import List NArith ZArith Bool Lia.
 From AV Require Import model.Proto model.Chain model.Program model.Ast model.Ir.
 From AV Require Import proofs.ProgramProofs proofs.ParProofs proofs.BuildProofs.
 From AV Require Import model.Printer model.Peg model.Translate model.Decompile model.Naming model.Build model.Alloc model.Gen.
-From AV Require Import model.Cli proofs.CliProofs.
+From AV Require Import model.Cli proofs.CliProofs model.CliEns proofs.CliEnsemble model.Bits.
 From AV Require model.Calc model.Par.
 Import ListNotations.
 Open Scope Z_scope.
@@ -101,6 +103,18 @@ Theorem C15_cli_no_panic : forall ens c, ens_ok ens ->
 Proof. intros ens c H. destruct (cli_no_panic ens c H) as ([| |] & ->); auto. Qed.
 Print Assumptions C15_cli_no_panic.
 
+(* the same with the modelled ensemble of C01 (every sort oracle): no hypothesis about the algorithms; the
+   target of a search must have a bit length below 2^64 (C01's bound: any number that fits in memory) *)
+Theorem C15_cli_no_panic_ensemble : forall orcs c, target_fits c ->
+  cli (ens_of orcs) c = Ok Exit0 \/ cli (ens_of orcs) c = Ok Exit1 \/ cli (ens_of orcs) c = Ok Exit2.
+Proof. intros orcs c H. destruct (cli_no_panic_ensemble orcs c H) as ([| |] & ->); auto. Qed.
+Print Assumptions C15_cli_no_panic_ensemble.
+
+Theorem C15_ensemble_results_ok : forall orcs n, 1 <= n -> Z.of_N (bitlen n) < 2 ^ 64 ->
+  ens_of orcs n <> [] /\ Forall result_ok (ens_of orcs n).
+Proof. exact ens_of_ok. Qed.
+Print Assumptions C15_ensemble_results_ok.
+
 (* including the invocations that never reach a command body: flag errors, missing expression, missing file *)
 Theorem C15_invocation_no_panic : forall ens i, ens_ok ens -> exists e, run_invocation ens i = Ok e.
 Proof. exact invocation_no_panic. Qed.
@@ -173,15 +187,18 @@ Definition C15_model_statement : Prop :=
              answers (lib_print s) /\ answers (lib_prepare s) /\ answers (lib_calc s)) /\
   (forall typ s, answers (lib_generate typ s)) /\
   (forall ens i, ens_ok ens ->
-     run_invocation ens i = Ok Exit0 \/ run_invocation ens i = Ok Exit1 \/ run_invocation ens i = Ok Exit2).
+     run_invocation ens i = Ok Exit0 \/ run_invocation ens i = Ok Exit1 \/ run_invocation ens i = Ok Exit2) /\
+  (forall orcs c, target_fits c ->
+     cli (ens_of orcs) c = Ok Exit0 \/ cli (ens_of orcs) c = Ok Exit1 \/ cli (ens_of orcs) c = Ok Exit2).
 
 Theorem C15_all_inputs_partial : C15_model_statement.
 Proof.
-  split; [|split].
+  split; [|split; [|split]].
   - intros s. repeat split; [apply no_panic_parse|apply no_panic_translate|apply no_panic_load|apply no_panic_build|
                               apply no_panic_print|apply no_panic_prepare|apply no_panic_calc].
   - exact no_panic_generate.
   - intros ens i H. destruct (invocation_no_panic ens i H) as ([| |] & ->); auto.
+  - intros orcs c H. destruct (cli_no_panic_ensemble orcs c H) as ([| |] & ->); auto.
 Qed.
 Print Assumptions C15_all_inputs_partial.
 
@@ -197,6 +214,10 @@ Proof.
   - constructor; [apply wf_check_ok; reflexivity|]. constructor; [exact I|constructor].
   - constructor; [apply wf_check_ok; reflexivity|]. constructor; [apply wf_check_ok; reflexivity|constructor].
 Qed.
+
+(* the size hypothesis of the ensemble version on a concrete search command (the 255-bit target 2^255 - 19) *)
+Example C15_target_fits_example : target_fits (Search $"2^255-19" 4 (FFin 1024) FNan).
+Proof. intros n H. vm_compute in H. injection H as <-. vm_compute. reflexivity. Qed.
 
 Example C15_exit_classes :
   cli ens_ex2 (Search $"5" 4 (FFin 1024) (FFin 1024)) = Ok Exit0 /\
